@@ -123,6 +123,35 @@ def resend_cases(rng, n):
     return out
 
 
+def read_available_cases(rng, n):
+    """ReadAvailable called while a ReadPacket on the same processor is parked in the middle of a packet"""
+    out = []
+    for _ in range(n):
+        p = rand_pkt(rng, 40)
+        while p["ty"] & 0x3F == 3 or "cmd" in p or len(p["body"]) < 8:
+            p = rand_pkt(rng, 40)
+        tail = bytes(rng.randrange(256) for _ in range(rng.choice([1, 6, 20]))).hex()
+        out.append({"mode": "ra", "pkts": [p], "wire": tail, "cuts": [], "park": rng.choice([2, 3, 3, 4, 5]), "big": True})
+    return out
+
+
+def size_class_cases(rng, n):
+    """sequences of bodies in neighbouring buffer-pool size classes on ONE processor (a pooled buffer filed under the wrong class is
+    handed to a later packet), plus types that already carry the 0x40 flag written with compression on"""
+    out = []
+    fixed = [[5000, 5000], [4096, 6000, 100, 7000], [32768, 30000, 33000], [8192, 8191, 8193, 12288, 12000], [4095, 4096, 4097, 4096]]
+    for k in range(n):
+        sizes = fixed[k] if k < len(fixed) else [rng.choice([4096, 8192, 16384, 32768, 65536]) + rng.choice([-4096, -1000, -1, 0, 1, 1000, 3000]) for _ in range(rng.choice([2, 3, 5]))]
+        pk = [{"ty": rng.choice([0x20, 0x01, 0x22, 0x60]) & 0x3F, "compress": rng.random() < 0.3, "body": "", "fill": [rng.randrange(256), max(1, s)], "rnd": True, "rate": 0} for s in sizes]
+        out.append({"mode": "pk", "pkts": pk, "cuts": rng.choice([[], [1000] * 400, [4096] * 100]), "big": True})
+    for _ in range(n):
+        p = rand_pkt(rng, 200)
+        while p["ty"] & 0x3F == 3 or "cmd" in p:
+            p = rand_pkt(rng, 200)
+        out.append({"mode": "pk", "pkts": [dict(p, ty=(p["ty"] & 0x3F) | 0x40, compress=True), rand_pkt(rng, 20)], "cuts": rng.choice([[], [1] * 80]), "big": True})
+    return out
+
+
 def rawcmd_cases(rng, n):
     """command-type packets whose command the caller has already serialised into Payload (CommandPacket nil)"""
     out = []
@@ -339,7 +368,8 @@ def run(ctx, only_cases=None):
     raw = raw_mutations(ctx, wires, 12 if thorough else 6) if only_cases is None else []
     outs += vlib.run_harness(binary, raw, timeout=900) if raw else []
     cases += raw
-    big = (big_cases(ctx, thorough) + flagged_cases(ctx.rng, 200 if thorough else 30) + writer_race_cases(ctx.rng, 60 if thorough else 9)) if only_cases is None else []
+    big = (big_cases(ctx, thorough) + flagged_cases(ctx.rng, 200 if thorough else 30) + writer_race_cases(ctx.rng, 60 if thorough else 9)
+           + read_available_cases(ctx.rng, 120 if thorough else 16) + size_class_cases(ctx.rng, 60 if thorough else 10)) if only_cases is None else []
     bouts = vlib.run_harness(binary, big, timeout=900) if big else []
 
     # (iii) the property predicate evaluated on the implementation's own outputs
